@@ -238,6 +238,7 @@ type webSocket struct {
 	onClosed           DisconnectedHandler
 	onError            ErrorHandler
 	onMessage          MessageHandler
+	announce           sync.WaitGroup // held by the owner while it announces the new connection; onClosed waits for it
 }
 
 func newWebSocket(id string, conn *websocket.Conn, tlsState *tls.ConnectionState, cfg WebSocketConfig, onMessage MessageHandler, onClosed DisconnectedHandler, onError ErrorHandler) *webSocket {
@@ -383,6 +384,8 @@ func (w *webSocket) cleanup(err error) {
 	close(w.closeC)
 	close(w.forceCloseC)
 	w.mutex.Unlock()
+	// The closed notification must not overtake the announcement of the connection.
+	w.announce.Wait()
 	// Invoke callback to notify the websocket was closed.
 	// If err is not nil, the disconnect is considered forced (i.e. not user-initiated).
 	w.onClosed(w, err)
